@@ -427,10 +427,16 @@ class Run:
             if r is None:
                 weekly = 40
             else:
-                base = DT(2031, 1, 6)
-                vals = [(r.cap(base + _dt.timedelta(days=i)) if hasattr(r, 'cap') else
-                         r.get_available_units(base + _dt.timedelta(days=i), None)) or 0 for i in range(7)]
-                weekly = sum(v for v in vals if v > 0)
+                # the backward scheduler walks into the past: look at the capacity of weeks BEFORE the deadline
+                # (a calendar that only starts shortly before the deadline leaves next to nothing back there)
+                end = self.sched_proj.get('A') or DT(2024, 1, 1)
+                weekly = None
+                for back in (7, 35, 400):
+                    base = day(end) - _dt.timedelta(days=back)
+                    vals = [(r.cap(base + _dt.timedelta(days=i)) if hasattr(r, 'cap') else
+                             r.get_available_units(base + _dt.timedelta(days=i), None)) or 0 for i in range(7)]
+                    wsum = sum(v for v in vals if v > 0)
+                    weekly = wsum if weekly is None else min(weekly, wsum)
             if weekly <= 0 or wk / weekly * 7 > 300:
                 return True
         return False
